@@ -485,6 +485,17 @@ func (af *AdaptationField) SetHasTransportPrivateData(value bool) error {
 		return err
 	}
 	delta := 1 * af.bitDelta(5, 0x02, value)
+	if delta == 0 {
+		return nil // presence is unchanged, keep the existing data
+	}
+	if delta < 0 {
+		// removing the field: drop its data together with the length byte
+		if err := af.resizeAF(af.transportPrivateDataStart(), -af.transportPrivateDataLength()); err != nil {
+			return err
+		}
+		af.setBit(5, 0x02, false)
+		return nil
+	}
 	err := af.resizeAF(af.transportPrivateDataStart(), delta)
 	if err != nil {
 		return err
@@ -543,6 +554,17 @@ func (af *AdaptationField) SetHasAdaptationFieldExtension(value bool) error {
 		return err
 	}
 	delta := 1 * af.bitDelta(5, 0x01, value)
+	if delta == 0 {
+		return nil // presence is unchanged, keep the existing data
+	}
+	if delta < 0 {
+		// removing the field: drop its data together with the length byte
+		if err := af.resizeAF(af.adaptationExtensionStart(), -af.adaptationExtensionLength()); err != nil {
+			return err
+		}
+		af.setBit(5, 0x01, false)
+		return nil
+	}
 	err := af.resizeAF(af.adaptationExtensionStart(), delta)
 	if err != nil {
 		return err
